@@ -17,6 +17,9 @@ def showStack (s : Stack) : String :=
 def showSet (S : StackSet) : String :=
   if S.isEmpty then "empty" else "|".intercalate (S.map showStack)
 
+def runDefersTerminal (g : Cfg) : Bool :=
+  g.all (fun blk => !(blk.instrs.contains IK.runDefers) || blk.succs.isEmpty)
+
 def runDefersSites (g : Cfg) : List Site :=
   (g.zipIdx.map fun (blk, b) =>
     (blk.instrs.zipIdx.filterMap fun (ik, j) => if ik = .runDefers then some (b, j) else none)).flatten
@@ -26,7 +29,7 @@ def answer (id : String) (g : Cfg) (ord : List Nat) (fuel : Nat) : String :=
   let sets := (runDefersSites g).map fun p =>
     s!"{p.1},{p.2}:" ++ (match r.setAt g p with | none => "none" | some S => showSet S)
   let b (x : Bool) := if x then "1" else "0"
-  s!"res {id} wf={b (wf g)} conv={b r.converged} bounded={b r.bounded} sets={";".intercalate sets}"
+  s!"res {id} wf={b (wf g && runDefersTerminal g)} conv={b r.converged} bounded={b r.bounded} sets={";".intercalate sets}"
 
 structure PAcc where
   id : String := ""
